@@ -2,9 +2,9 @@
    Carrier: any [ops T] whose operations form a commutative ring ([rng K]); the statistics need in addition the two
    facts about a field of characteristic 0 that are spelled out as hypotheses (x/b*b = x for b <> 0; n+1 <> 0).
    Multi-indices [idx] are positions in the sorted observed domain ([domain I], np.unique per column). *)
-From Coq Require Import List Arith Lia PeanoNat ZArith QArith Qcanon Sorted.
+From Coq Require Import List Arith Lia PeanoNat ZArith QArith Qcanon Sorted Permutation.
 From TV Require Import Num.Ops Lin.Tab Lin.BigSum Lin.Mat TT.Chain Model.ActOne Model.Anova Model.AnovaFunc
-  Proofs.AnovaP Proofs.Anova2P Proofs.AnovaFuncP Proofs.AnovaTopP Proofs.AnovaExP.
+  Proofs.AnovaP Proofs.Anova2P Proofs.AnovaFuncP Proofs.AnovaTopP Proofs.AnovaAddP Proofs.AnovaNoiseP Proofs.AnovaExP.
 Import ListNotations.
 Local Open Scope nat_scope.
 
@@ -74,6 +74,20 @@ Theorem C13_anova_order1 : forall {T} (K : ops T), rng K ->
     get K Y idx = calc_pos K M idx.
 Proof. exact @anova_order1. Qed.
 
+(* "Consequently an additive function sampled on a full grid is reproduced exactly": the sample rows are all
+   multi-indices of the observed domain, each once, in any order ([grid] = row-major product); the values are
+   c + sum_k gs k (x_k) for arbitrary c and gs.  Field of characteristic 0 with natT the canonical embedding of nat.
+   All d >= 2, all mode sizes, all r >= 2 *)
+Theorem C13_anova_additive_exact : forall {T} (K : ops T), rng K ->
+  (forall a b, b <> o0 K -> omul K (odiv K a b) b = a) -> (forall n, natT K (S n) <> o0 K) ->
+  natT K O = o0 K -> (forall n, natT K (S n) = oadd K (natT K n) (o1 K)) ->
+  forall I c gs r g (M : anova T),
+  let d := dimI I in let y := map (addf K c gs d) I in
+  Permutation I (grid (domain I)) -> 2 <= d -> 2 <= r -> ANOVA K I y 1 = Ok M ->
+  forall pos, length pos = d -> (forall k, k < d -> nth k pos O < length (nth k (domain I) [])) ->
+    get K (cores_1 K M r (o0 K) g) pos = addf K c gs d (tab d (fun k => nth (nth k pos O) (nth k (domain I) []) 0%Z)).
+Proof. exact @anova_additive_exact. Qed.
+
 (* with noise: mode sizes and TT-ranks are the same for every noise level and every generator *)
 Theorem C13_cores_1_shape : forall {T} (K : ops T) (M : anova T) r noise g, 2 <= a_d M -> length (a_f1 M) = a_d M ->
   shape (cores_1 K M r noise g) = map (@length T) (a_f1 M).
@@ -92,6 +106,16 @@ Theorem C13_cores_1_noise_partial : forall {T} (K : ops T), rng K ->
    cget K G a i b = oadd K (cget K G0 a i b)
                       (if in_pattern (a_d M) k a b then o0 K else omul K noise (g (gcall (a_d M) k) a i b))).
 Proof. exact @cores_1_noise_entries. Qed.
+(* partial: the exact first-order form of the perturbation of the tensor.  The entry of the noisy tensor is the
+   noise-free value f0 + sum_k f1[k][x_k] plus noise times the sum over k of the chain made of the noisy cores before
+   k, the raw draws (zero on the pattern) at k and the noise-free cores after k.  Missing: a numeric bound of that sum *)
+Theorem C13_cores_1_noise_telescope_partial : forall {T} (K : ops T), rng K ->
+  forall (M : anova T) r noise g idx, 2 <= r -> 2 <= a_d M -> length idx = a_d M ->
+  (forall k, k < a_d M -> nth k idx O < length (nth k (a_f1 M) [])) ->
+  get K (cores_1 K M r noise g) idx
+  = oadd K (oadd K (a_f0 M) (bsum K (a_d M) (fun k => nth (nth k idx O) (nth k (a_f1 M) []) (o0 K))))
+      (omul K noise (bsum K (a_d M) (fun k => get K (mix_chain K M r noise g k) idx))).
+Proof. exact @cores_1_noise_telescope. Qed.
 
 (* rejected arguments *)
 Theorem C13_anova_bad_order : forall {T} (K : ops T) I y r order noise g skel trunc, order <> 1 -> order <> 2 ->
@@ -144,6 +168,24 @@ Theorem C13_anova_order2_partial : forall {T} (K : ops T), rng K ->
      1 <= ncalls <= S (length (pairs (dimI I))) /\ wf 1 Y idx /\ shape Y = shapes (domain I) /\
      get K Y idx = oadd K (calc_pos K M idx) (bsum K ncalls err).
 Proof. exact @anova_order2_get_partial. Qed.
+
+(* partial, the same result seen from its last truncate call: it is truncate(e, r) applied to a TT-tensor Ypre of the
+   observed shape whose entry is calc_pos plus the changes of the intermediate truncate calls; with fewer than 15 pairs
+   (d <= 5) there is no intermediate call, so Ypre denotes constant + univariate + pair terms exactly.  Missing as
+   above: what truncate(e, r) does to Ypre (error <= e ||Ypre||, ranks <= r) is property C02 *)
+Theorem C13_anova_order2_pre_partial : forall {T} (K : ops T), rng K ->
+  forall skel : nat -> mat T -> mat T * mat T,
+  (forall num A, let (U, V) := skel num A in mc U = mr V /\ meq K (mmul K U V) A) ->
+  forall I y (M : anova T) r g trunc idx (err : nat -> T),
+  ANOVA K I y 2 = Ok M -> 2 <= r -> 2 <= dimI I -> length idx = dimI I ->
+  (forall k, k < dimI I -> nth k idx O < nth k (shapes (domain I)) O) ->
+  (forall k Y, okY idx (shapes (domain I)) Y ->
+               okY idx (shapes (domain I)) (trunc k Y) /\ get K (trunc k Y) idx = oadd K (get K Y idx) (err k)) ->
+  exists Ypre ncalls, cores K M r (o0 K) false g skel trunc = Ok (trunc ncalls Ypre) /\
+     ncalls <= length (pairs (dimI I)) /\ (length (pairs (dimI I)) < 15 -> ncalls = O) /\
+     wf 1 Ypre idx /\ shape Ypre = shapes (domain I) /\
+     get K Ypre idx = oadd K (calc_pos K M idx) (bsum K ncalls err).
+Proof. exact @anova_order2_pre. Qed.
 
 (* ---------- anova_func ---------- *)
 (* the coefficient tensor before rounding: c0 at index 0, cf_i[p] at (p+1) e_i, zero elsewhere (as a sum of indicator
@@ -199,11 +241,30 @@ Theorem C13_anova_func_denote : forall {T} (K : ops T), rng K -> forall (split :
                                                                  (chebT K (S p) (nth i x (o0 K)))))).
 Proof. exact @anova_func_denote. Qed.
 
+(* the fitted constant is the sample mean plus the constant terms of the d one-dimensional fits, the expansions are
+   the remaining entries of the solver's answers *)
+Theorem C13_coeffs_eq : forall {T} (K : ops T) X y n a b lamb solve,
+  let sys := systems K X y n a b lamb in
+  let cur := tab (length sys) (fun i => solve i (fst (nth i sys (mk_mat O O [], []))) (snd (nth i sys (mk_mat O O [], [])))) in
+  coeffs K X y n a b lamb solve = (fold_left (fun c cf => oadd K c (nth O cf (o0 K))) cur (mean K y), map (@tl T) cur).
+Proof. exact @coeffs_eq. Qed.
+(* with rounding (default e) the result is the truncate routine applied to the tensor of C13_anova_func_denote; what
+   truncate does to it is property C02 (validated numerically here: 1e-7 relative) *)
+Theorem C13_anova_func_rounded : forall {T} (K : ops T) (split : T -> T * T) X y n a b lamb solve
+  (tr : list (core T) -> list (core T)),
+  anova_func K X y n a b lamb solve split (Some tr) = tr (anova_func K X y n a b lamb solve split None).
+Proof. exact @anova_func_rounded. Qed.
+
 (* ---------- non-vacuity ---------- *)
 (* the carrier executed by the correspondence satisfies the field hypotheses *)
 Example C13_Qc_laws : rng OQc /\ (forall a b : Qc, b <> o0 OQc -> omul OQc (odiv OQc a b) b = a) /\
   (forall n, natT OQc (S n) <> o0 OQc).
 Proof. exact (conj OQc_rng (conj Qc_div_law Qc_nat_nz)). Qed.
+Example C13_Qc_nat_laws : natT OQc O = o0 OQc /\ (forall n, natT OQc (S n) = oadd OQc (natT OQc n) (o1 OQc)).
+Proof. exact (conj Qc_nat_0 Qc_nat_S). Qed.
+(* a shuffled full 2 x 3 grid is a permutation of the grid of its observed domain *)
+Example C13_full_grid_example : Permutation exG (grid (domain exG)) /\ dimI exG = 2.
+Proof. exact exG_full. Qed.
 (* the oracle contracts are met by concrete routines *)
 Example C13_skel_contract : forall {T} (K : ops T), rng K -> forall num A,
   let (U, V) := skel_id K num A in mc U = mr V /\ meq K (mmul K U V) A.
